@@ -251,8 +251,11 @@ def foreign_records(tkey):
             case = {"type": tkey, "foreign_record": ["short", length, o.name]}
             try:
                 m = C.load_bytes(data).module
-            except Exception:
-                break       # whether such a file loads at all is C04's business
+            except Exception as e:
+                # older files carry shorter records (13 bytes in the repository's own fixtures): they must load
+                vs.append(C.viol("short-options-record-not-loadable", {"type": tkey, "exc": type(e).__name__},
+                                 {"loaded_record_bytes": length, "error": repr(e)[:160]}, case))
+                break
             v = 1 if o.size == 1 else (o.max if o.max is not None else 2 ** o.size - 1)
             if o.inverted and o.size == 1:
                 v = 0 if getattr(m, o.name) else 1
